@@ -290,6 +290,14 @@ func (r *Route) goodRegexString(n, v string) {
 	}
 }
 
+// check the compiled path regex: each capturing group must belong to a path var.
+// goodRegexString() only looks at the first '(' of a var regex.
+func (r *Route) goodRegexGroups() {
+	if n := r.regex.NumSubexp(); n != len(r.matches) {
+		goutil.Panicf("invalid route path '%s', it has %d capturing groups but %d path vars", r.path, n, len(r.matches))
+	}
+}
+
 // check start string and match a regex route
 func (r *Route) match(path string) (ps Params, ok bool) {
 	// check start string
